@@ -130,7 +130,7 @@ def maxSweep : Nat := 1 <<< 24
 def vmOps : List String :=
   ["Fadd64", "Fsub64", "Fmul64", "Fdiv64", "Fneg64", "Feq64", "Fgt64", "Fge64", "Flt64", "Fle64",
    "Fadd32", "Fsub32", "Fmul32", "Fdiv32", "Fneg32", "Feq32", "Fgt32", "Fge32", "Flt32", "Fle32",
-   "F64to32", "F32to64", "Fint64to64", "Fint64to32", "Fint32to64", "Fint32to32", "Fuint64to64", "Fuint64to32",
+   "F64to32", "F32to64", "Fintto64", "Fintto32", "Fint64to64", "Fint64to32", "Fint32to64", "Fint32to32", "Fuint64to64", "Fuint64to32",
    "F64toint64", "F64toint32", "F64touint64", "F32toint64", "F32toint32", "F32touint64"]
 
 def run (fn : String) (args : List String) : String :=
